@@ -412,7 +412,7 @@ CHECKS = {
             T('MC_RepLike', 'Rep_quick.cfg'),
             T('MC_RepLike', 'Respondent_quick.cfg'),
             T('MC_RepLike', 'Rep_plain.cfg', tiers=('thorough',)),
-            T('MC_RepLike', 'Respondent_plain.cfg', tiers=('thorough',)),
+            T('MC_RepLike', 'Respondent_plain.cfg', tiers=('thorough',)), T('MC_RepLike', 'Respondent_resize.cfg', tiers=('thorough',)),
             C('rep', 'TestRep', 'TraceRep', n={'quick': 100, 'thorough': 1200}),
             C('respondent', 'TestRespondent', 'TraceRespondent', n={'quick': 100, 'thorough': 1200}),
             C('repscn', 'TestRep', 'TraceRep', file='rep', n={'quick': 150, 'thorough': 4000},
